@@ -12,7 +12,7 @@ from vlib import common
 from vlib.common import hexs
 
 CODECS = {0: "UNCOMPRESSED", 1: "SNAPPY", 2: "GZIP", 5: "LZ4", 6: "ZSTD"}
-SPEC_DECODABLE = {0}          # codecs whose page bodies the TLA+ reference reader can decode (grows)
+SPEC_DECODABLE = {0, 1, 5}          # codecs whose page bodies the TLA+ reference reader can decode (Snappy.tla, Lz4.tla)
 
 GEN_CFG = """CONSTANTS
   SchemaIds = %(schemas)s
